@@ -98,12 +98,16 @@ Proof. exact gen_handlers_complete. Qed.
 
 (** No value, no assignment.  In _solve_with_wrapper the test [if wc_value is None: return wc_value] comes
     right after the solver call (only prints in between): when the wrapper reports no value, solve returns
-    None and neither duals nor primal values are assigned; values and duals of DSL objects are assigned by
-    two functions only, both called from _solve_with_wrapper and from nowhere else. *)
+    None and neither duals nor primal values are assigned.  Values, duals and LMI entry duals
+    ([_value], [_dual_variable_value], [entries_dual_variable_value]) of DSL objects are assigned by four
+    functions only; every call of one of them sits in _solve_with_wrapper (after the guard) or in
+    Wrapper.assign_dual_values, itself one of the four. *)
 Theorem C16_none :
   run_plan post_solve_plan None = {| returned := Some None ; writes := [] |}
-  /\ value_writers = [("pep.py", "PEP._eval_points_and_function_values"); ("wrapper.py", "Wrapper.assign_dual_values")]
-  /\ forallb (fun c => String.eqb (snd c) "pep.py:_solve_with_wrapper") writer_callers = true.
+  /\ value_writers = [("pep.py", "PEP._eval_points_and_function_values"); ("wrapper.py", "Wrapper.assign_dual_values");
+                      ("wrappers/cvxpy_wrapper.py", "CvxpyWrapper._recover_dual_values");
+                      ("wrappers/mosek_wrapper.py", "MosekWrapper._recover_dual_values")]
+  /\ forallb writer_call_ok writer_callers = true.
 Proof. split; [exact (run_plan_guard _ gen_guard_first)|exact gen_writers]. Qed.
 
 Theorem C16_none_generic :
